@@ -79,16 +79,22 @@ func (s *MemStore) LoadSnapshot(r io.ReadCloser) error {
 	}
 }
 
+// Backups. Contract (RocksDB BackupEngine as used by storage/rocks): a backup
+// captures the whole durable content of the store at the moment it is taken
+// (every table, the write-ahead data included) together with the caller's
+// metadata string; identifiers start at 1, grow, and are not reused while the
+// engine is open; deleting or restoring an identifier that does not exist is an
+// error; restoring materialises that content as a store of its own, which no
+// later write to the original reaches.
 type backupRec struct {
-	id     int64
-	meta   string
-	tables [5][]storage.KVPair
+	id    int64
+	meta  string
+	state *MemStore
 }
 
 func (s *MemStore) Backup(metadata string) error {
 	s.backupSeq++
-	c := s.Clone()
-	s.Backups = append(s.Backups, backupRec{id: s.backupSeq, meta: metadata, tables: c.Tables})
+	s.Backups = append(s.Backups, backupRec{id: s.backupSeq, meta: metadata, state: s.Clone()})
 	return nil
 }
 
@@ -110,9 +116,25 @@ func (s *MemStore) DeleteBackup(backupID uint32) error {
 	return errors.New("backup not found")
 }
 
+// restored maps a directory to the store content a restore materialised there.
+var restored map[string]*MemStore
+
 func (s *MemStore) RestoreFromBackup(backupID uint32, dbDir, walDir string) error {
-	return errors.New("not modelled")
+	for _, b := range s.Backups {
+		if b.id == int64(backupID) {
+			if restored == nil {
+				restored = map[string]*MemStore{}
+			}
+			restored[dbDir] = b.state.Clone()
+			return nil
+		}
+	}
+	return errors.New("backup not found")
 }
+
+// OpenRestored opens the store a restore put into dir (nil if there is none):
+// what a node started on that directory finds. A new Raft log sits next to it.
+func OpenRestored(dir string) *MemStore { return restored[dir] }
 
 func (s *MemStore) RegisterMetrics(metrics.Registry) {}
 
